@@ -2601,6 +2601,9 @@ func (t *Terminal) printInfoImpl() {
 	if fillLength > 0 {
 		t.window.CPrint(tui.ColSeparator, " ")
 		printSeparator(fillLength, false)
+	} else if pad := maxWidth - outputLen + 1; pad > 0 && t.separatorLen > 0 {
+		// No room for the separator: clear what a longer info may have left
+		t.window.Print(strings.Repeat(" ", pad))
 	}
 }
 
